@@ -1455,6 +1455,109 @@ def ufunc_tie_compare(res, model):
 
 
 # --------------------------------------------------------------------------
+# 2e. temporary features set through hierarchy children, repeatedly: every
+#     level must serve what a freshly built hierarchy serves
+# --------------------------------------------------------------------------
+def gen_tempset_case(rng):
+    n = rng.randint(6, 14)
+    base = [rng.randint(1, 160) / 8.0 for _ in range(n)]
+    keeps = [[True] + [rng.random() < 0.75 for _ in range(n - 1)]]
+    keeps.append([True] + [rng.random() < 0.75 for _ in range(sum(keeps[0]) - 1)])
+    ops = []
+    # set through the youngest, read everywhere, set again with other data
+    lv = rng.choice([2, 2, 1])
+    ops += [["set", lv, rng.randint(2, 9)]] + [["read", l, w] for l in (0, 1, 2)
+                                              for w in rng.sample(["values", "max", "mean"], 2)]
+    for _ in range(rng.randint(8, 24)):
+        if rng.random() < 0.3:
+            ops.append(["set", rng.choice([0, 1, 2, 2]), rng.randint(2, 9)])
+        else:
+            ops.append(["read", rng.randint(0, 2), rng.choice(["values", "max", "min", "mean"])])
+    return dict(kind="tempset", base=base, keeps=keeps, hdf5=rng.random() < 0.4, ops=ops)
+
+
+def run_tempset_case(case, scratch):
+    np = _np()
+    import dclab
+    base = np.array(case["base"], dtype=np.float64)
+    n = len(base)
+    keeps = [np.array(k, dtype=bool) for k in case["keeps"]]
+    idxs = [np.arange(n)]
+    idxs.append(idxs[0][keeps[0]])
+    idxs.append(idxs[1][keeps[1]])
+    _REPLAY_N[0] += 1
+    path = os.path.join(scratch, "tempset_%d_%d.rtdc" % (os.getpid(), _REPLAY_N[0]))
+    if case.get("hdf5"):
+        from . import gen
+        gen.write_spec(path, dict(n=n, features={"deform": base, "area_um": base * 10},
+                                  meta=gen.base_meta()))
+
+    def chain(root_temp):
+        ds = (dclab.new_dataset(path) if case.get("hdf5")
+              else dclab.new_dataset({"deform": base.copy(), "area_um": base * 10}))
+        if root_temp is not None:
+            dclab.set_temporary_feature(ds, "userdef1", root_temp.copy())
+        levels = [ds]
+        for lv in (0, 1):
+            levels[lv].filter.manual[:] = keeps[lv]
+            levels[lv].apply_filter()
+            ch = dclab.new_dataset(levels[lv])
+            ch.rejuvenate()
+            levels.append(ch)
+        return levels
+
+    FN = {"max": np.nanmax, "min": np.nanmin, "mean": np.nanmean}
+
+    def read(levels, lv, what):
+        obj = levels[lv]["userdef1"]
+        if what == "values":
+            return np.array(obj[:], dtype=np.float64)
+        return float(getattr(obj, what)())
+
+    def same(a, b):
+        if isinstance(a, np.ndarray) or isinstance(b, np.ndarray):
+            return (np.shape(a) == np.shape(b)
+                    and bool(np.array_equal(a, b, equal_nan=True)))
+        return a == b or (a != a and b != b) or abs(a - b) <= 1e-12 * max(1.0, abs(b))
+
+    levels = chain(None)
+    root_temp = None
+    fail = None
+    reads = 0
+    try:
+        for i, op in enumerate(case["ops"]):
+            if op[0] == "set":
+                lv, mult = op[1], op[2]
+                data = base[idxs[lv]] * mult
+                dclab.set_temporary_feature(levels[lv], "userdef1", data.copy())
+                root_temp = np.full(n, np.nan)
+                root_temp[idxs[lv]] = data
+                if lv == 0:
+                    root_temp = data.copy()
+                if lv < 2:
+                    # documented: descendants are rejuvenated by the user
+                    levels[2].rejuvenate()
+                continue
+            if root_temp is None:
+                continue
+            lv, what = op[1], op[2]
+            ref = chain(root_temp)
+            okc, vc = safe_call(read, levels, lv, what)
+            okf, vf = safe_call(read, ref, lv, what)
+            _close_all(ref)
+            reads += 1
+            good = (okc == okf) and ((not okc and vc == vf) or (okc and same(vc, vf)))
+            if not good and fail is None:
+                fail = ("op %d: userdef1 %s of level %d is %s, a freshly built hierarchy "
+                        "gives %s" % (i, what, lv,
+                                      ([float(x) for x in vc] if isinstance(vc, np.ndarray) else vc),
+                                      ([float(x) for x in vf] if isinstance(vf, np.ndarray) else vf)))
+    finally:
+        _close_all(levels)
+    return dict(fail=fail, nontrivial=reads > 3)
+
+
+# --------------------------------------------------------------------------
 # 3. hashfile
 # --------------------------------------------------------------------------
 HF_VARIANTS = {
@@ -2437,6 +2540,8 @@ def exec_case(case, scratch, memos=None):
         return run_anc_case(case)
     if k == "alias":
         return run_alias_case(case, scratch)
+    if k == "tempset":
+        return run_tempset_case(case, scratch)
     if k == "ufunc":
         return run_ufunc_case(case, scratch)
     if k == "hashfile":
@@ -2522,6 +2627,8 @@ def run(run):
         cases.append(gen_ufunc_case(rng))
     for _ in range(100 if t else 12):
         cases.append(gen_alias_case(rng))
+    for _ in range(80 if t else 10):
+        cases.append(gen_tempset_case(rng))
     for _ in range(20 if t else 4):
         cases.append(gen_cache_large_case(rng))
     for _ in range(80 if t else 14):
@@ -2691,7 +2798,7 @@ def shrink(run, failure):
     case = failure["case"]
     kind = case.get("kind")
     if kind not in ("cache", "public", "dsapi", "anc", "ufunc", "hashfile", "lcl", "obj",
-                    "objnd", "alias") or "ops" not in case:
+                    "objnd", "alias", "tempset") or "ops" not in case:
         return failure
 
     def fails(c):
@@ -2744,6 +2851,7 @@ def search(run, broken):
             lambda: gen_public_case(rng), lambda: gen_dsapi_case(rng),
             lambda: gen_anc_case(rng), lambda: gen_ufunc_case(rng),
             lambda: gen_alias_case(rng), lambda: gen_cache_large_case(rng),
+            lambda: gen_tempset_case(rng),
             lambda: gen_hashfile_case(rng, True), lambda: gen_lcl_case(rng, True)]
     for i in range(n):
         c = gens[i % len(gens)]()
